@@ -330,7 +330,7 @@ func (m Mix) next(g *sim.G) *sim.Op {
 	if n := len(g.W.Steps); m.Recv > 0 && n > 0 && g.W.Steps[n-1].Op.Kind == "restart" {
 		// right after an export/import the most recently accepted messages are submitted again
 		var ops []*sim.Op
-		for i := n - 1; i >= 0 && len(ops) < 5; i-- {
+		for i := n - 1; i >= 0 && len(ops) < 8; i-- {
 			st := g.W.Steps[i]
 			if st.Op.Kind == "tx" && st.OK() && len(st.Msgs) == 1 {
 				if _, ok := st.Msgs[0].(*types.MsgReceiveMessage); ok {
@@ -351,6 +351,31 @@ func (m Mix) next(g *sim.G) *sim.Op {
 	if m.AttProbe > 0 && g.Pct("attprobe", m.AttProbe) {
 		// the attester manager enables or disables an entry (under whatever spelling it has), then
 		// submissions attested by the set as that change leaves it
+		if g.Bool("ap/compound") {
+			// a key that is not enabled is enabled under some spelling, used, disabled under that very spelling, used again
+			ks := g.W.EnabledKeys()
+			var x *attest.Key
+			for i, off := 0, g.Int("ap/off", 0, sim.NKeys-1); i < sim.NKeys && x == nil; i++ {
+				k := attest.K((i + off) % sim.NKeys)
+				used := false
+				for _, e := range ks {
+					used = used || e.Idx == k.Idx
+				}
+				if !used {
+					x = k
+				}
+			}
+			if x != nil {
+				sp := x.Spelling(g.Int("ap/sp", 0, 5))
+				mgr := g.W.Model.Roles[1]
+				en := sim.TxOp("admin:EnableAttester", &types.MsgEnableAttester{From: mgr, Attester: sp})
+				dis := sim.TxOp("admin:DisableAttester", &types.MsgDisableAttester{From: mgr, Attester: sp})
+				queueOps(g, followUps(g, "ap/use1", en.SdkMsgs()[0])...)
+				queueOps(g, dis)
+				queueOps(g, followUps(g, "ap/use2", dis.SdkMsgs()[0])...)
+				return en
+			}
+		}
 		a := g.AdminOp("ap", 100, []string{"EnableAttester", "DisableAttester"})
 		queueOps(g, followUps(g, "ap/use", a.SdkMsgs()[0])...)
 		return a
